@@ -305,7 +305,16 @@ def fit_lsq(prog, rep):
                       "self.alpha, self.beta = _estimate_alpha_beta(self.delta, x, p, w)",
                       "alpha and beta (in this order) must be estimated for the delta in force (self.delta)")
     # plotting positions on the ascending sample
+    # the finite-checked sample, possibly converted to float in the same call
+    fl = (G("float"), G("numpy.float64"), G("numpy.double"))
+    dats = [dat] + [("call", G("numpy.asarray_chkfinite"), (data,), (("dtype", f_),)) for f_ in fl] + [("call", G("numpy.asarray_chkfinite"), (data, f_), ()) for f_ in fl]
+    dat = next((d_ for d_ in dats if any(w == d_ for w in walk(x_t))), dat)
     xs_ok = x_t in (("call", G("numpy.sort"), (dat,), ()), ("sub", dat, ("call", G("numpy.argsort"), (dat,), ())))
+    # x ** 2, x ** 3 and their sums are computed in the dtype of the data: for integer observations (wave heights in mm, the
+    # default int64 included) sum(x ** 3) wraps round, the weights become negative and fmin maximises the error
+    rep.check(dat in dats[1:], "C13.formula", f"{q}:float", fn.where(), "the sample is converted to float before powers of it are summed",
+              "np.asarray_chkfinite(data) keeps an integer dtype: 'cubic' weights x**3 / sum(x**3) of int64 observations around 1e5 (n = 5000) overflow silently - negative "
+              "weights, alpha 2.51e5 / beta 79.2 instead of 1.07e5 / 1.572 for the same values as floats; convert with dtype=float")
     n = ("call", G("len"), (x_t,), ())
     want_p = ("bin", "/", ("bin", "-", ("call", G("numpy.arange"), (("const", 1), ("bin", "+", n, ("const", 1))), ()), ("const", 0.5)), n)
     okp = algebra.same(p_t, want_p)
